@@ -124,7 +124,9 @@ def dispatch(loader):
     return out
 
 
-TASKS = [StructTask("constructors", constructors), StructTask("attr_dict-save-load", attr_dict_and_load, textual=True), StructTask("reader-dispatch", dispatch)]
+# (all three are expectations about how the source is spelled - `deepcopy(x)` / `np.array(x)` on the right-hand side, the discriminator conditions of the reader: a mismatch is
+# "undecided", the function contracts below - the twelve constructors on their bodies, the reader for twelve discriminator cases - and the native evaluation decide)
+TASKS = [StructTask("constructors", constructors, textual=True), StructTask("attr_dict-save-load", attr_dict_and_load, textual=True), StructTask("reader-dispatch", dispatch, textual=True)]
 
 # ---------------------------------------------------------------------------------------------------------------------
 # the type-dispatching reader, Settings.save and Settings.load on the executed bodies (json / the file are opaque): which class is instantiated for which
